@@ -9,11 +9,24 @@ package main
 //             success path, or the function returns a nil error / no error at all,
 //             without the value (or something computed from it) having been
 //             returned, stored, sent or passed on
+//   unused    the value is compared at most (`if err != nil { /* TODO */ }` leaves a comparison   → violation
+//             and no branch), or kept in a local variable / list / struct nobody hands on
+// "The value" is followed through interface conversions, phis and variables that live in
+// memory because a closure or a defer captures them; tests are recognised through negation,
+// named conditions, len forms and module predicates (`failed(err)`). Handing on means: returned,
+// sent, stored into memory that is not this activation's own, or passed to a callee that does
+// one of these (module callees are looked into; pure formatting and the process log do not
+// count — the formatted RESULT is followed instead). The failure-side walk knows what the
+// guarding tests establish, so `if err == nil { x, err = g() }; if err != nil { return err }`
+// and break-then-test-after-the-loop are understood, and `return nil, err` with an `err` that
+// is known to be nil there is the return of nil.
 // Deliberate instances are frozen in errTable with a reason; callees that provably never
-// fail discharge their drops automatically.
+// fail discharge their drops automatically; a tabled drop also covers the same call written
+// as `if err := f(); err != nil { return }`.
 
 import (
 	"fmt"
+	"os"
 	"go/token"
 	"go/types"
 	"sort"
@@ -68,9 +81,11 @@ func errSources(fn *ssa.Function) (srcs []errSource, dropped []errSource) {
 		}
 		for _, i := range errIdx {
 			var ex *ssa.Extract
-			for _, ref := range *call.Referrers() {
-				if e, ok := ref.(*ssa.Extract); ok && e.Index == i {
-					ex = e
+			if refs := call.Referrers(); refs != nil {
+				for _, ref := range *refs {
+					if e, ok := ref.(*ssa.Extract); ok && e.Index == i {
+						ex = e
+					}
 				}
 			}
 			if ex == nil || ex.Referrers() == nil || len(*ex.Referrers()) == 0 {
@@ -107,7 +122,12 @@ func namedOfShort(t types.Type) string {
 }
 
 // neverFails: every return of the (module) callee yields a nil constant for the error-like
-// result at index i. For AsyncMapReduce the error list is nil iff the map function never fails.
+// result at index i. For AsyncMapReduce only one direction holds and only that one is used: when
+// the map function never fails, the error list is nil (errors come from mapFunc alone: R1/A2,A4,A8).
+// The converse is FALSE (audit 9, E-C1): a map function that fails with an error which
+// gqlerrors.ExtendErrorList/FormatError turns into no entries (a non-nil but empty ErrorList
+// returned as `error`) leaves the list nil and its element missing from the accumulator — a nil
+// list from AsyncMapReduce is therefore no proof that every element was mapped.
 // documentedInfallible: library writers whose documentation states that the returned error is
 // always nil (strings.Builder: "always returns a nil error"; bytes.Buffer: "err is always nil";
 // hash.Hash: "It never returns an error").
@@ -181,67 +201,233 @@ func (r *Run) returnsNilErr(fn *ssa.Function, depth int) bool {
 	return true
 }
 
-// uses of v (or of values computed from v inside the block walk) that count as "handled".
-func handlesErr(ins ssa.Instruction, tainted map[ssa.Value]bool) bool {
-	uses := func(v ssa.Value) bool { return v != nil && tainted[v] }
-	switch x := ins.(type) {
-	case *ssa.Return:
-		for _, res := range retVals(x) {
-			if uses(res) {
-				return true
+// ---------------------------------------------------------------------------------------
+// Where the error lives: aliases, cells, taint.
+//
+//   alias   a value that IS the error (possibly merged with others): the call result, its
+//           interface conversions, phis it flows into, loads of a variable cell it was
+//           assigned to (a local captured by a closure or a defer lives in memory)
+//   cell    such a variable: the owning Alloc together with the free variables bound to it
+//   taint   aliases plus everything computed from them (err.Error(), fmt.Errorf(…, err), a
+//           struct or a slice the error was put into — local memory the error is stored in is
+//           followed, it is not a destination)
+
+// cellOwner resolves an Alloc or a FreeVar to the Alloc that owns the variable.
+func cellOwner(x ssa.Value) *ssa.Alloc {
+	for depth := 0; depth < 8; depth++ {
+		switch c := x.(type) {
+		case *ssa.Alloc:
+			return c
+		case *ssa.FreeVar:
+			fn := c.Parent()
+			idx := -1
+			for i, fv := range fn.FreeVars {
+				if fv == c {
+					idx = i
+				}
 			}
-		}
-	case *ssa.Store:
-		return uses(x.Val)
-	case *ssa.Send:
-		return uses(x.X)
-	case *ssa.MapUpdate:
-		return uses(x.Value)
-	case ssa.CallInstruction:
-		// a predicate over the error (errors.Is / errors.As / a module function that returns
-		// only a bool) classifies it; it does not report it
-		if isErrPredicate(x.Common()) {
-			return false
-		}
-		for _, a := range x.Common().Args {
-			if uses(a) {
-				// passing the error to a call: logging/formatting/reporting. Pure formatting whose
-				// result is discarded would still count; such callee results are tainted too, and
-				// an unused result does not re-handle anything, which is acceptable here.
-				return true
+			par := fn.Parent()
+			if idx < 0 || par == nil {
+				return nil
 			}
+			var next ssa.Value
+			for _, ins := range allInstrs(par) {
+				if mc, ok := ins.(*ssa.MakeClosure); ok && mc.Fn == ssa.Value(fn) && idx < len(mc.Bindings) {
+					next = mc.Bindings[idx]
+				}
+			}
+			if next == nil {
+				return nil
+			}
+			x = next
+		default:
+			return nil
 		}
 	}
-	return false
+	return nil
 }
 
-// isErrPredicate: the call only asks a yes/no question (its single result is a bool).
-func isErrPredicate(c *ssa.CallCommon) bool {
-	res := c.Signature().Results()
-	if res == nil || res.Len() != 1 {
-		return false
-	}
-	b, ok := res.At(0).Type().Underlying().(*types.Basic)
-	return ok && b.Kind() == types.Bool
-}
-
-// taintFrom computes the values derived from v within fn (through operands).
-func taintFrom(v ssa.Value) map[ssa.Value]bool {
-	t := map[ssa.Value]bool{v: true}
-	changed := true
-	fn := v.Parent()
-	if fn == nil {
-		return t
-	}
-	for changed {
-		changed = false
-		for _, ins := range allInstrs(fn) {
-			val, ok := ins.(ssa.Value)
-			if !ok || t[val] {
+// cellMembers: the owner plus the free variables bound to it in closures (transitively).
+func cellMembers(al *ssa.Alloc) []ssa.Value {
+	out := []ssa.Value{al}
+	for i := 0; i < len(out); i++ {
+		refs := out[i].Referrers()
+		if refs == nil {
+			continue
+		}
+		for _, ref := range *refs {
+			mc, ok := ref.(*ssa.MakeClosure)
+			if !ok {
 				continue
 			}
-			for _, op := range operandsOf(ins) {
-				if t[op] {
+			cf, ok := mc.Fn.(*ssa.Function)
+			if !ok {
+				continue
+			}
+			for j, b := range mc.Bindings {
+				if b == out[i] && j < len(cf.FreeVars) {
+					out = append(out, cf.FreeVars[j])
+				}
+			}
+		}
+	}
+	return out
+}
+
+// addrRoot strips element/field addressing: the object the address points into.
+func addrRoot(a ssa.Value) ssa.Value {
+	for {
+		switch x := a.(type) {
+		case *ssa.IndexAddr:
+			a = x.X
+		case *ssa.FieldAddr:
+			a = x.X
+		case *ssa.ChangeType:
+			a = x.X
+		case *ssa.Slice:
+			a = x.X
+		default:
+			return a
+		}
+	}
+}
+
+// localRoot: the address points into memory that belongs to this activation (a local, a
+// fresh allocation, a captured local): storing there does not hand anything to anybody yet.
+func localRoot(a ssa.Value) *ssa.Alloc {
+	switch x := addrRoot(a).(type) {
+	case *ssa.Alloc:
+		return x
+	case *ssa.FreeVar:
+		return cellOwner(x)
+	}
+	return nil
+}
+
+type errInfo struct {
+	v     ssa.Value
+	alias map[ssa.Value]bool
+	taint map[ssa.Value]bool
+	cells map[*ssa.Alloc]bool // variables that hold the error itself
+	fns   []*ssa.Function     // functions the error can be seen in (owner and closures sharing a cell)
+}
+
+var errInfoMemo = map[ssa.Value]*errInfo{}
+
+func errInfoOf(v ssa.Value) *errInfo {
+	if ei, ok := errInfoMemo[v]; ok {
+		return ei
+	}
+	ei := &errInfo{v: v, alias: map[ssa.Value]bool{v: true}, taint: map[ssa.Value]bool{}, cells: map[*ssa.Alloc]bool{}}
+	errInfoMemo[v] = ei
+	fnSet := map[*ssa.Function]bool{}
+	addFn := func(f *ssa.Function) {
+		if f != nil && !fnSet[f] {
+			fnSet[f] = true
+			ei.fns = append(ei.fns, f)
+		}
+	}
+	addFn(v.Parent())
+	// aliases
+	work := []ssa.Value{v}
+	for len(work) > 0 {
+		x := work[0]
+		work = work[1:]
+		refs := x.Referrers()
+		if refs == nil {
+			continue
+		}
+		add := func(y ssa.Value) {
+			if !ei.alias[y] {
+				ei.alias[y] = true
+				work = append(work, y)
+			}
+		}
+		for _, ref := range *refs {
+			switch y := ref.(type) {
+			case *ssa.ChangeType:
+				add(y)
+			case *ssa.MakeInterface:
+				add(y)
+			case *ssa.ChangeInterface:
+				add(y)
+			case *ssa.Phi:
+				add(y)
+			case *ssa.Store:
+				if y.Val != x {
+					continue
+				}
+				var owner *ssa.Alloc
+				switch a := y.Addr.(type) {
+				case *ssa.Alloc:
+					owner = a
+				case *ssa.FreeVar:
+					owner = cellOwner(a)
+				}
+				if owner == nil || ei.cells[owner] {
+					continue
+				}
+				ei.cells[owner] = true
+				for _, m := range cellMembers(owner) {
+					addFn(m.Parent())
+					if mr := m.Referrers(); mr != nil {
+						for _, l := range *mr {
+							if ld, ok := l.(*ssa.UnOp); ok && ld.Op == token.MUL {
+								add(ld)
+							}
+						}
+					}
+				}
+			}
+		}
+	}
+	// taint
+	for a := range ei.alias {
+		ei.taint[a] = true
+	}
+	taintAlloc := func(al *ssa.Alloc) bool {
+		ch := false
+		for _, m := range cellMembers(al) {
+			if !ei.taint[m] {
+				ei.taint[m] = true
+				ch = true
+				addFn(m.Parent())
+			}
+		}
+		return ch
+	}
+	for changed := true; changed; {
+		changed = false
+		for i := 0; i < len(ei.fns); i++ {
+			for _, ins := range allInstrs(ei.fns[i]) {
+				switch x := ins.(type) {
+				case *ssa.Store:
+					if ei.taint[x.Val] {
+						if al := localRoot(x.Addr); al != nil && taintAlloc(al) {
+							changed = true
+						}
+					}
+					continue
+				case *ssa.MapUpdate:
+					if ei.taint[x.Value] || ei.taint[x.Key] {
+						if mm, ok := x.Map.(*ssa.MakeMap); ok && !ei.taint[mm] {
+							ei.taint[mm] = true
+							changed = true
+						}
+					}
+					continue
+				}
+				val, ok := ins.(ssa.Value)
+				if !ok || ei.taint[val] {
+					continue
+				}
+				if _, isMC := ins.(*ssa.MakeClosure); isMC {
+					continue // a captured variable is followed into the closure (cellMembers); the closure value is not the error
+				}
+				for _, op := range operandsOf(ins) {
+					if !ei.taint[op] {
+						continue
+					}
 					// a comparison result is not "the error"
 					if bo, isBin := ins.(*ssa.BinOp); isBin && (bo.Op == token.EQL || bo.Op == token.NEQ || bo.Op == token.GTR || bo.Op == token.LSS) {
 						break
@@ -254,14 +440,255 @@ func taintFrom(v ssa.Value) map[ssa.Value]bool {
 							break
 						}
 					}
-					t[val] = true
+					ei.taint[val] = true
 					changed = true
 					break
 				}
 			}
 		}
 	}
-	return t
+	return ei
+}
+
+// taintFrom computes the values derived from v (through operands and through local memory).
+func taintFrom(v ssa.Value) map[ssa.Value]bool {
+	if v.Parent() == nil {
+		return map[ssa.Value]bool{v: true}
+	}
+	return errInfoOf(v).taint
+}
+
+// reportsNothing: library calls that neither hand their argument to anybody who can act on it
+// nor keep it: pure formatting/wrapping (the RESULT carries the error and is followed) and
+// the process log.
+func reportsNothing(name string) bool {
+	for _, p := range []string{"log.", "(*log.Logger).", "fmt.Sprint", "fmt.Print", "fmt.Errorf", "errors.", "strings.", "strconv.", "(*errors."} {
+		if strings.HasPrefix(name, p) {
+			return true
+		}
+	}
+	return false
+}
+
+type paramKey struct {
+	fn  *ssa.Function
+	idx int
+}
+
+var paramHandledMemo = map[paramKey]int{} // 1 in progress, 2 yes, 3 no
+
+// paramHandled: the module function does something with its idx-th parameter beyond looking at
+// it and handing it back (the returned value is followed in the caller).
+func paramHandled(fn *ssa.Function, idx, depth int) bool {
+	if depth > 4 || idx >= len(fn.Params) {
+		return true
+	}
+	k := paramKey{fn, idx}
+	switch paramHandledMemo[k] {
+	case 1, 2:
+		return true
+	case 3:
+		return false
+	}
+	paramHandledMemo[k] = 1
+	ei := errInfoOf(fn.Params[idx])
+	res := false
+	for _, f := range ei.fns {
+		for _, ins := range allInstrs(f) {
+			if _, isRet := ins.(*ssa.Return); isRet && f == fn {
+				continue
+			}
+			if p, isPanic := ins.(*ssa.Panic); isPanic && ei.taint[p.X] {
+				res = true
+			}
+			if handlesErrD(ins, ei.taint, depth+1) {
+				res = true
+			}
+		}
+	}
+	if res {
+		paramHandledMemo[k] = 2
+	} else {
+		paramHandledMemo[k] = 3
+	}
+	return res
+}
+
+// handlesErr: ins hands a tainted value on — returns it, stores it where others can see it,
+// sends it, or passes it to a call that does one of these.
+func handlesErr(ins ssa.Instruction, tainted map[ssa.Value]bool) bool {
+	return handlesErrD(ins, tainted, 0)
+}
+
+func handlesErrD(ins ssa.Instruction, tainted map[ssa.Value]bool, depth int) bool {
+	uses := func(v ssa.Value) bool { return v != nil && tainted[v] }
+	switch x := ins.(type) {
+	case *ssa.Return:
+		for _, res := range retVals(x) {
+			if uses(res) {
+				return true
+			}
+		}
+		for _, res := range x.Results {
+			if uses(res) {
+				return true
+			}
+		}
+	case *ssa.Store:
+		// a store into local memory is followed by the taint instead (the variable, the struct,
+		// the list may or may not be looked at again)
+		return uses(x.Val) && localRoot(x.Addr) == nil
+	case *ssa.Send:
+		return uses(x.X)
+	case *ssa.MapUpdate:
+		if _, local := x.Map.(*ssa.MakeMap); local {
+			return false
+		}
+		return uses(x.Value)
+	case ssa.CallInstruction:
+		c := x.Common()
+		if _, isB := c.Value.(*ssa.Builtin); isB {
+			return false // append/len/copy: the result is followed
+		}
+		// a predicate over the error (errors.Is / errors.As / a module function that returns
+		// only a bool) classifies it; it does not report it
+		if isErrPredicate(c) {
+			return false
+		}
+		var idx []int
+		for i, a := range c.Args {
+			if uses(a) {
+				idx = append(idx, i)
+			}
+		}
+		if len(idx) == 0 {
+			return false
+		}
+		if reportsNothing(calleeName(c)) {
+			return false
+		}
+		if callee := c.StaticCallee(); callee != nil && len(callee.Blocks) > 0 && inModule(callee) {
+			for _, i := range idx {
+				if paramHandled(callee, i, depth) {
+					return true
+				}
+			}
+			return false
+		}
+		// a library or dynamic callee: writing, encoding, reporting
+		return true
+	}
+	return false
+}
+
+// isErrPredicate: the call only asks a yes/no question (its single result is a bool).
+func isErrPredicate(c *ssa.CallCommon) bool {
+	sig := c.Signature()
+	if sig == nil {
+		return false
+	}
+	res := sig.Results()
+	if res == nil || res.Len() != 1 {
+		return false
+	}
+	b, ok := res.At(0).Type().Underlying().(*types.Basic)
+	return ok && b.Kind() == types.Bool
+}
+
+// nilTestOf decomposes a condition into "subject is (non-)nil / (non-)empty": negations, the
+// len forms and module predicates whose every return is such a test of one parameter
+// (`func failed(err error) bool { return err != nil }`) are looked through.
+func nilTestOf(cond ssa.Value, depth int) (subj ssa.Value, nonNilWhenTrue bool, ok bool) {
+	if depth > 4 {
+		return nil, false, false
+	}
+	switch x := cond.(type) {
+	case *ssa.UnOp:
+		if x.Op == token.NOT {
+			s, p, ok := nilTestOf(x.X, depth+1)
+			return s, !p, ok
+		}
+	case *ssa.BinOp:
+		var other ssa.Value
+		switch {
+		case isNilConst(x.Y):
+			other = x.X
+		case isNilConst(x.X):
+			other = x.Y
+		}
+		if other != nil {
+			switch x.Op {
+			case token.NEQ:
+				return other, true, true
+			case token.EQL:
+				return other, false, true
+			}
+			return nil, false, false
+		}
+		// len(v) > 0, len(v) != 0, len(v) == 0, 0 < len(v)
+		lenArg := func(v ssa.Value) ssa.Value {
+			c, ok := v.(*ssa.Call)
+			if !ok {
+				return nil
+			}
+			if b, ok := c.Call.Value.(*ssa.Builtin); ok && b.Name() == "len" {
+				return c.Call.Args[0]
+			}
+			return nil
+		}
+		if a := lenArg(x.X); a != nil && isIntConst(x.Y, 0) {
+			switch x.Op {
+			case token.GTR, token.NEQ:
+				return a, true, true
+			case token.EQL, token.LEQ:
+				return a, false, true
+			}
+		}
+		if a := lenArg(x.Y); a != nil && isIntConst(x.X, 0) {
+			switch x.Op {
+			case token.LSS, token.NEQ:
+				return a, true, true
+			case token.EQL, token.GEQ:
+				return a, false, true
+			}
+		}
+	case *ssa.Call:
+		if !isErrPredicate(&x.Call) {
+			return nil, false, false
+		}
+		callee := x.Call.StaticCallee()
+		if callee == nil || len(callee.Blocks) == 0 || !inModule(callee) {
+			return nil, false, false
+		}
+		pi, pol, seen := -1, false, false
+		for _, ret := range returnsOf(callee) {
+			if len(ret.Results) != 1 {
+				return nil, false, false
+			}
+			s, p, ok := nilTestOf(ret.Results[0], depth+1)
+			if !ok {
+				return nil, false, false
+			}
+			par, isPar := unwrap(s).(*ssa.Parameter)
+			if !isPar {
+				return nil, false, false
+			}
+			i := -1
+			for j, q := range callee.Params {
+				if q == par {
+					i = j
+				}
+			}
+			if i < 0 || (seen && (i != pi || p != pol)) {
+				return nil, false, false
+			}
+			pi, pol, seen = i, p, true
+		}
+		if seen && pi < len(x.Call.Args) {
+			return x.Call.Args[pi], pol, true
+		}
+	}
+	return nil, false, false
 }
 
 // failureTests finds the Ifs that separate failure from success for v and returns, for
@@ -271,48 +698,222 @@ type errTest struct {
 	fail, ok *ssa.BasicBlock
 }
 
+// failureTests: the tests in v's own function.
 func failureTests(v ssa.Value) []errTest {
 	var out []errTest
-	fn := v.Parent()
-	isV := func(x ssa.Value) bool { return unwrap(x) == v || x == v }
-	for _, ins := range allInstrs(fn) {
-		iff, ok := ins.(*ssa.If)
-		if !ok {
-			continue
+	for _, t := range failureTestsAll(v) {
+		if t.iff.Parent() == v.Parent() {
+			out = append(out, t)
 		}
-		bo, ok := iff.Cond.(*ssa.BinOp)
-		if !ok {
-			continue
-		}
-		s := iff.Block().Succs
-		switch {
-		case isV(bo.X) && isNilConst(bo.Y), isV(bo.Y) && isNilConst(bo.X):
-			if bo.Op == token.NEQ {
+	}
+	return out
+}
+
+// failureTestsAll: tests of any alias of v, in any function that can see it.
+func failureTestsAll(v ssa.Value) []errTest {
+	var out []errTest
+	if v.Parent() == nil {
+		return nil
+	}
+	ei := errInfoOf(v)
+	for _, fn := range ei.fns {
+		for _, ins := range allInstrs(fn) {
+			iff, ok := ins.(*ssa.If)
+			if !ok {
+				continue
+			}
+			subj, pol, ok := nilTestOf(iff.Cond, 0)
+			if !ok || !(ei.alias[subj] || ei.alias[unwrap(subj)]) {
+				continue
+			}
+			s := iff.Block().Succs
+			if pol {
 				out = append(out, errTest{iff, s[0], s[1]})
-			} else if bo.Op == token.EQL {
+			} else {
 				out = append(out, errTest{iff, s[1], s[0]})
-			}
-		default:
-			// len(v) > 0, len(v) != 0, len(v) == 0
-			lenOfV := func(x ssa.Value) bool {
-				c, ok := x.(*ssa.Call)
-				if !ok {
-					return false
-				}
-				b, ok := c.Call.Value.(*ssa.Builtin)
-				return ok && b.Name() == "len" && isV(c.Call.Args[0])
-			}
-			if lenOfV(bo.X) && isIntConst(bo.Y, 0) {
-				switch bo.Op {
-				case token.GTR, token.NEQ:
-					out = append(out, errTest{iff, s[0], s[1]})
-				case token.EQL:
-					out = append(out, errTest{iff, s[1], s[0]})
-				}
 			}
 		}
 	}
 	return out
+}
+
+// ---------------------------------------------------------------------------------------
+// Path facts: what is known to be nil / non-nil on the path being walked.
+
+type nilEnv struct {
+	val  map[ssa.Value]bool  // true: known non-nil (non-empty), false: known nil (empty)
+	cell map[*ssa.Alloc]bool // the same for the current content of a variable cell
+}
+
+func newNilEnv() *nilEnv { return &nilEnv{map[ssa.Value]bool{}, map[*ssa.Alloc]bool{}} }
+
+func (e *nilEnv) clone() *nilEnv {
+	c := newNilEnv()
+	for k, v := range e.val {
+		c.val[k] = v
+	}
+	for k, v := range e.cell {
+		c.cell[k] = v
+	}
+	return c
+}
+
+// directCell: addr is a variable itself (not an element or field of one).
+func directCell(addr ssa.Value) *ssa.Alloc {
+	switch a := addr.(type) {
+	case *ssa.Alloc:
+		return a
+	case *ssa.FreeVar:
+		return cellOwner(a)
+	}
+	return nil
+}
+
+func (e *nilEnv) eval(x ssa.Value, depth int) (nonNil, known bool) {
+	if x == nil || depth > 6 {
+		return false, false
+	}
+	if c, ok := x.(*ssa.Const); ok {
+		if c.Value == nil {
+			return false, true
+		}
+		return false, false
+	}
+	if b, ok := e.val[x]; ok {
+		return b, true
+	}
+	switch y := x.(type) {
+	case *ssa.ChangeType:
+		return e.eval(y.X, depth+1)
+	case *ssa.ChangeInterface:
+		return e.eval(y.X, depth+1)
+	case *ssa.MakeInterface:
+		if nn, known := e.eval(y.X, depth+1); known {
+			return nn, true
+		}
+		if _, isStruct := y.X.Type().Underlying().(*types.Struct); isStruct {
+			return true, true
+		}
+	case *ssa.Alloc:
+		return true, true
+	case *ssa.Call:
+		switch calleeName(&y.Call) {
+		case "fmt.Errorf", "errors.New":
+			return true, true
+		}
+		if b, ok := y.Call.Value.(*ssa.Builtin); ok && b.Name() == "append" && len(y.Call.Args) == 2 {
+			if _, isConst := y.Call.Args[1].(*ssa.Const); !isConst {
+				return true, true // a list something was appended to is not empty
+			}
+		}
+	case *ssa.Phi:
+		first, res := true, false
+		for _, ed := range y.Edges {
+			if ed == ssa.Value(y) {
+				continue
+			}
+			nn, known := e.eval(ed, depth+1)
+			if !known || (!first && nn != res) {
+				return false, false
+			}
+			first, res = false, nn
+		}
+		if !first {
+			return res, true
+		}
+	case *ssa.UnOp:
+		if y.Op == token.MUL {
+			if owner := directCell(y.X); owner != nil {
+				if b, ok := e.cell[owner]; ok {
+					return b, true
+				}
+			}
+		}
+	}
+	return false, false
+}
+
+func (e *nilEnv) set(x ssa.Value, nn bool, cells bool) {
+	for depth := 0; depth < 6 && x != nil; depth++ {
+		e.val[x] = nn
+		switch y := x.(type) {
+		case *ssa.ChangeType:
+			x = y.X
+		case *ssa.ChangeInterface:
+			x = y.X
+		case *ssa.UnOp:
+			if cells && y.Op == token.MUL {
+				if owner := directCell(y.X); owner != nil {
+					e.cell[owner] = nn
+				}
+			}
+			return
+		default:
+			return
+		}
+	}
+}
+
+// assume records what cond being `truth` says.
+func (e *nilEnv) assume(cond ssa.Value, truth bool, cells bool) {
+	if subj, pol, ok := nilTestOf(cond, 0); ok {
+		e.set(subj, truth == pol, cells)
+	}
+}
+
+func (e *nilEnv) evalCond(cond ssa.Value) (truth, known bool) {
+	subj, pol, ok := nilTestOf(cond, 0)
+	if !ok {
+		return false, false
+	}
+	nn, known := e.eval(subj, 0)
+	if !known {
+		return false, false
+	}
+	return nn == pol, true
+}
+
+// dominatingFacts: what the conditions that guard b say about SSA values.
+func dominatingFacts(b *ssa.BasicBlock, e *nilEnv) {
+	for d := b; d != nil && d.Idom() != nil; d = d.Idom() {
+		p := d.Idom()
+		if len(p.Instrs) == 0 {
+			continue
+		}
+		iff, ok := p.Instrs[len(p.Instrs)-1].(*ssa.If)
+		if !ok || len(p.Succs) != 2 || p.Succs[0] == p.Succs[1] {
+			continue
+		}
+		for i, s := range p.Succs {
+			if len(s.Preds) == 1 && s.Dominates(b) {
+				e.assume(iff.Cond, i == 0, false)
+			}
+		}
+	}
+}
+
+var cellClosureWriteMemo = map[*ssa.Alloc]bool{}
+
+// cellWrittenInClosure: a closure assigns to the variable (so a call may change it).
+func cellWrittenInClosure(owner *ssa.Alloc) bool {
+	if b, ok := cellClosureWriteMemo[owner]; ok {
+		return b
+	}
+	res := false
+	for _, m := range cellMembers(owner) {
+		if _, isFV := m.(*ssa.FreeVar); !isFV {
+			continue
+		}
+		if refs := m.Referrers(); refs != nil {
+			for _, ref := range *refs {
+				if st, ok := ref.(*ssa.Store); ok && st.Addr == m {
+					res = true
+				}
+			}
+		}
+	}
+	cellClosureWriteMemo[owner] = res
+	return res
 }
 
 // swallowed walks the failure side and reports a path on which the error is neither
@@ -323,10 +924,21 @@ func (r *Run) swallowed(v ssa.Value, t errTest) (bool, string) {
 
 // swallowedWith additionally treats `carrier` (e.g. the response object that contains the
 // error list) as carrying the error.
+//
+// The walk is path-sensitive as far as nil tests go: it starts with what the guarding
+// conditions and the test itself establish, resolves phis by the edge taken, follows only
+// the feasible side of a later test of a value it knows (`if err == nil { x, err = g() };
+// if err != nil { return err }`, `break` and a test after the loop), and treats the return
+// of an error VALUE that is known to be nil on the path as the return of nil.
 func (r *Run) swallowedWith(v ssa.Value, t errTest, carrier ssa.Value) (bool, string) {
-	fn := v.Parent()
-	tainted := taintFrom(v)
+	fn := t.iff.Parent()
+	ei := errInfoOf(v)
+	tainted := ei.taint
 	if carrier != nil {
+		tainted = map[ssa.Value]bool{}
+		for k := range ei.taint {
+			tainted[k] = true
+		}
 		for k := range taintFrom(carrier) {
 			tainted[k] = true
 		}
@@ -356,57 +968,212 @@ func (r *Run) swallowedWith(v ssa.Value, t errTest, carrier ssa.Value) (bool, st
 			}
 		}
 	}
-	seen := map[*ssa.BasicBlock]bool{}
+	if os.Getenv("PEB_ERRDEBUG") != "" && strings.Contains(fnName(fn), os.Getenv("PEB_ERRDEBUG")) {
+		fn.WriteTo(os.Stderr)
+		for k := range tainted {
+			fmt.Fprintln(os.Stderr, "TAINT", k.Name(), k)
+		}
+	}
+	env := newNilEnv()
+	dominatingFacts(t.iff.Block(), env)
+	if s := t.iff.Block().Succs; len(s) == 2 && s[0] != s[1] {
+		env.assume(t.iff.Cond, t.fail == s[0], true)
+	}
+	holdsInCell := func(e *nilEnv) *ssa.Alloc {
+		for owner := range ei.cells {
+			if e.cell[owner] {
+				return owner
+			}
+		}
+		return nil
+	}
+	type edge struct{ from, to *ssa.BasicBlock }
+	seen := map[edge]bool{}
 	var why string
-	var walk func(b *ssa.BasicBlock, first bool) bool // returns true when a swallowing path exists
-	walk = func(b *ssa.BasicBlock, first bool) bool {
-		if seen[b] {
+	// joined: the path is past the point where failure and success side meet, with the error
+	// still carried by a phi or a variable; from there on only the way the function is left counts
+	var walk func(b, pred *ssa.BasicBlock, env *nilEnv, first, joined bool) bool // true when a swallowing path exists
+	walk = func(b, pred *ssa.BasicBlock, env *nilEnv, first, joined bool) bool {
+		if seen[edge{pred, b}] {
 			return false
 		}
-		seen[b] = true
-		if !first && okReach[b] && !t.fail.Dominates(b) {
-			// re-joined the success path (merge block or loop header) without handling
-			why = "execution continues at " + r.P.pos(firstPos(b)) + " as if the call had succeeded"
-			return true
+		seen[edge{pred, b}] = true
+		carried := false
+		idx := -1
+		for i, p := range b.Preds {
+			if p == pred {
+				idx = i
+			}
+		}
+		// phis are assigned in parallel: evaluate every incoming value before updating any
+		newPhi := map[*ssa.Phi]*bool{}
+		for _, ins := range b.Instrs {
+			phi, ok := ins.(*ssa.Phi)
+			if !ok {
+				break
+			}
+			newPhi[phi] = nil
+			if idx < 0 || idx >= len(phi.Edges) {
+				continue
+			}
+			if tainted[phi.Edges[idx]] {
+				carried = true
+			}
+			if nn, known := env.eval(phi.Edges[idx], 0); known {
+				newPhi[phi] = &nn
+			}
+		}
+		for phi, nn := range newPhi {
+			if nn == nil {
+				delete(env.val, phi)
+			} else {
+				env.val[phi] = *nn
+			}
+		}
+		if !first && !joined && okReach[b] && !t.fail.Dominates(b) {
+			if !carried && holdsInCell(env) == nil {
+				// re-joined the success path (merge block or loop header) and nothing carries the error
+				why = "execution continues at " + r.P.pos(firstPos(b)) + " as if the call had succeeded"
+				return true
+			}
+			joined = true
 		}
 		for _, ins := range b.Instrs {
+			if _, isPhi := ins.(*ssa.Phi); isPhi {
+				continue
+			}
+			if val, isVal := ins.(ssa.Value); isVal {
+				delete(env.val, val) // a new execution of the definition: earlier knowledge is stale
+			}
 			if handlesErr(ins, tainted) {
 				return false
 			}
+			switch x := ins.(type) {
+			case *ssa.Store:
+				if owner := directCell(x.Addr); owner != nil {
+					if nn, known := env.eval(x.Val, 0); known {
+						env.cell[owner] = nn
+					} else {
+						delete(env.cell, owner)
+					}
+				}
+			case ssa.CallInstruction:
+				if _, isB := x.Common().Value.(*ssa.Builtin); !isB {
+					for owner := range env.cell {
+						if cellWrittenInClosure(owner) {
+							delete(env.cell, owner)
+						}
+					}
+				}
+			case *ssa.Panic:
+				return false
+			}
 			if ret, ok := ins.(*ssa.Return); ok {
+				if owner := holdsInCell(env); owner != nil && owner.Parent() != fn {
+					return false // a closure leaves the error in a variable of its creator: not lost here (see R6.flow "use")
+				}
 				if !hasErrResult {
 					why = "the function returns at " + r.P.pos(retPos(ret)) + " and has no error result: the failure is invisible to its caller"
 					return true
 				}
+				stale := ""
 				for i, res := range retVals(ret) {
-					if isErrorish(fn.Signature.Results().At(i).Type()) && !isNilConst(unwrap(res)) {
-						return false // some error is returned (a new one: propagation by replacement)
+					if !isErrorish(fn.Signature.Results().At(i).Type()) || isNilConst(unwrap(res)) {
+						continue
 					}
+					if nn, known := env.eval(res, 0); known && !nn {
+						stale = " (the value returned there is an error that is known to be nil on this path: it was tested before)"
+						continue
+					}
+					return false // some error is returned (a new one: propagation by replacement)
 				}
-				why = "the function returns a nil error at " + r.P.pos(retPos(ret)) + " on the failure path"
+				why = "the function returns a nil error at " + r.P.pos(retPos(ret)) + " on the failure path" + stale
 				return true
 			}
-			if _, ok := ins.(*ssa.Panic); ok {
+		}
+		if len(b.Instrs) > 0 {
+			if iff, ok := b.Instrs[len(b.Instrs)-1].(*ssa.If); ok && len(b.Succs) == 2 && b.Succs[0] != b.Succs[1] {
+				truth, known := env.evalCond(iff.Cond)
+				for i, s := range b.Succs {
+					if known && truth != (i == 0) {
+						continue // infeasible on this path
+					}
+					e2 := env.clone()
+					if !known {
+						e2.assume(iff.Cond, i == 0, true)
+					}
+					if walk(s, b, e2, false, joined) {
+						return true
+					}
+				}
 				return false
 			}
 		}
 		for _, s := range b.Succs {
-			if walk(s, false) {
+			e2 := env
+			if len(b.Succs) > 1 {
+				e2 = env.clone()
+			}
+			if walk(s, b, e2, false, joined) {
 				return true
 			}
 		}
 		return false
 	}
-	if walk(t.fail, true) {
+	if walk(t.fail, t.iff.Block(), env, true, false) {
 		return true, why
 	}
 	return false, ""
 }
 
+// handedOnSomewhere: some instruction in the functions that can see the error returns, sends,
+// publishes or passes on a value computed from it.
+func handedOnSomewhere(ei *errInfo) bool {
+	for _, f := range ei.fns {
+		for _, ins := range allInstrs(f) {
+			if handlesErr(ins, ei.taint) {
+				return true
+			}
+			if p, ok := ins.(*ssa.Panic); ok && ei.taint[p.X] {
+				return true
+			}
+		}
+	}
+	return false
+}
+
 func firstPos(b *ssa.BasicBlock) token.Pos {
+	if p := firstPos1(b); p.IsValid() {
+		return p
+	}
+	// a loop header of position-less bookkeeping: where it goes next
+	seen := map[*ssa.BasicBlock]bool{b: true}
+	work := append([]*ssa.BasicBlock{}, b.Succs...)
+	for n := 0; len(work) > 0 && n < 8; n++ {
+		s := work[0]
+		work = work[1:]
+		if seen[s] {
+			continue
+		}
+		seen[s] = true
+		if p := firstPos1(s); p.IsValid() {
+			return p
+		}
+		work = append(work, s.Succs...)
+	}
+	return token.NoPos
+}
+
+func firstPos1(b *ssa.BasicBlock) token.Pos {
 	for _, i := range b.Instrs {
 		if i.Pos().IsValid() {
 			return i.Pos()
+		}
+		// a loop header or a merge block may consist of position-less bookkeeping: use what it works on
+		for _, op := range operandsOf(i) {
+			if op.Pos().IsValid() {
+				return op.Pos()
+			}
 		}
 	}
 	return token.NoPos
@@ -458,14 +1225,27 @@ func ruleErr(sc errScope) ruleFn {
 				}
 			}
 			for _, s := range srcs {
-				tests := failureTests(s.val)
-				if len(tests) == 0 {
-					// used without a test: returned, passed on, stored… — propagation
+				tests := failureTestsAll(s.val)
+				ei := errInfoOf(s.val)
+				if len(tests) == 0 || len(ei.cells) > 0 {
+					// used without a test (returned, passed on, stored…), or kept in a variable that
+					// closures share: somebody must actually hand it on. A comparison whose outcome
+					// decides nothing (`if err != nil { /* TODO */ }`), a list nobody reads and the
+					// process log are not that.
 					if !r.silent {
 						n++
 					}
-					r.OK("R6.flow", name, "use "+s.desc, r.P.pos(s.call.Pos()), "error value is used (returned/stored/passed on) without being filtered by a test")
-					continue
+					construct := "use " + s.desc
+					site := r.P.pos(s.call.Pos())
+					if handedOnSomewhere(ei) {
+						r.OK("R6.flow", name, construct, site, "error value is used (returned/stored/passed on) without being filtered by a test")
+					} else if r.neverFails(s.call, 0) {
+						r.OK("R6.flow", name, construct, site, "callee provably never fails")
+					} else if reason, ok := useTable(r, errTable, name+"/"+construct); ok {
+						r.Tabled("R6.flow", name, construct, site, "err", reason)
+					} else {
+						r.Bad("R6.flow", name, construct, site, "the error result of "+s.desc+" is looked at or kept in a local variable at most: no instruction returns it, sends it, stores it where a caller can see it or passes it to a function that does: a failure there goes unnoticed")
+					}
 				}
 				for _, t := range tests {
 					if !r.silent {
@@ -486,7 +1266,12 @@ func ruleErr(sc errScope) ruleFn {
 						r.Tabled("R6.flow", name, construct, site, "err", reason)
 						continue
 					}
-					if reason, ok := r.terminates(fn, 0); ok && strings.Contains(why, "has no error result") {
+					// a confirmed deliberate drop written out (`if err := f(); err != nil { return }`)
+					if reason, ok := useTable(r, errTable, name+"/drop "+s.desc); ok {
+						r.Tabled("R6.flow", name, construct, site, "err", reason)
+						continue
+					}
+					if reason, ok := r.terminates(t.iff.Parent(), 0); ok && strings.Contains(why, "has no error result") {
 						r.Tabled("R6.flow", name, construct, site, "terminate", reason)
 						continue
 					}
